@@ -196,6 +196,13 @@ class Prop(common.PropertyCheck):
                 toks.append([first] + body)
             yield {'k': 'dict', 'd': d, 'toks': toks, 'tail': [], 'supp': rng.random() < 0.4, 'lead': rng.random() < 0.5}
 
+        # segments whose declared end lies 1, 2 or 5 bytes beyond the end of the buffer (the last bytes are missing): refused, whatever the remaining bytes look like
+        for i in range(self.budget(60, 600)):
+            d = [47, 124, 33, 12, 92][i % 5]
+            pairs = [['K%d' % j, 'v%d' % j + (chr(d) * 2 if (i + j) % 3 == 0 else '')] for j in range(1 + i % 3)]
+            yield {'k': 'short', 'd': d, 'pairs': pairs, 'miss': [1, 1, 2, 5][i % 4], 'pre': [0, 3, 58][(i // 4) % 3], 'supp': (i // 2) % 2 == 1, 'given': i % 3 != 0,
+                   'trail': ['', ' ', chr(d)][(i // 5) % 3]}
+
     # ---- implementation side ------------------------------------------------
     def read_seg(self, segb, d, supp, auto=False):
         buf = io.BytesIO(segb)
@@ -222,6 +229,20 @@ class Prop(common.PropertyCheck):
             r = self.read_seg(seg, d, case['supp'], auto)
             r['d_used'] = d
             return r
+        if case['k'] == 'short':
+            d = case['d']
+            seg = (fcswriter.render_text([tuple(p) for p in case['pairs']], chr(d)) + case['trail']).encode(fcswriter.ENC)
+            pre = b'#' * case['pre']
+            buf = io.BytesIO(pre + seg[:len(seg) - case['miss']])
+            with warnings.catch_warnings():
+                warnings.simplefilter('ignore')
+                try:
+                    text, _ = FlowCal.io.read_fcs_text_segment(buf, len(pre), len(pre) + len(seg) - 1, chr(d) if (case['given'] or case['supp']) else None, case['supp'])
+                except ValueError as e:
+                    return {'short': None}
+                except Exception as e:
+                    return {'short': 'raised %s: %s' % (type(e).__name__, str(e)[:60])}
+            return {'short': 'read as %r' % (sorted(text.items()),)}
         if case['k'] == 'dict':
             d = case['d']
             toks = [''.join(map(chr, t)) for t in case['toks']]
@@ -271,6 +292,10 @@ class Prop(common.PropertyCheck):
                 case['spec']['raw_stext'], impl.get('exc') or 'loaded with keywords %s' % impl.get('text'))
         if 'exc' in impl:
             return 'unexpected exception %s' % impl['exc']
+        if case['k'] == 'short':
+            self.bump('class:declared-end-beyond-buffer')
+            return None if impl['short'] is None else 'a segment whose last %d byte(s) are missing (delimiter %r, %d keyword(s), offset %d) was not refused: %s' % (
+                case['miss'], chr(case['d']), len(case['pairs']), case['pre'], impl['short'])
         if case['k'] == 'seg':
             seg = bytes(case['seg']).decode(fcswriter.ENC)
             d = chr(impl['d_used'])
@@ -333,6 +358,8 @@ class Prop(common.PropertyCheck):
 
     # ---- model side -----------------------------------------------------------
     def model_request(self, case, impl):
+        if case['k'] == 'short':
+            return None
         if case['k'] == 'seg':
             return {'op': 'text', 'd': impl.get('d_used', case['d']), 'supp': case['supp'], 'seg': case['seg']}
         if case['k'] == 'dict':
@@ -357,6 +384,8 @@ class Prop(common.PropertyCheck):
         return None
 
     def nontrivial_key(self, case, impl):
+        if case['k'] == 'short':
+            return ('short', case['miss'], case['pre'], case['supp'], case['given'], case['trail'], len(case['pairs']))
         if case['k'] == 'seg':
             seg = case['seg']; d = impl.get('d_used', case['d'])
             runs = []
